@@ -915,6 +915,7 @@ func (c *Check) mergedIffNoError() {
 	if f == nil {
 		return
 	}
+	f = collectionFunction(f)
 	n := 0
 	for _, b := range f.Blocks {
 		for _, ins := range b.Instrs {
